@@ -319,9 +319,11 @@ pub trait Planner<S: State, SP: StateSpace<StateType = S>, G: Goal<S>> {
     spec fn p_step_limit(&self) -> real;          // the planner's configured extension distance
     spec fn p_step_params_ok(&self) -> bool;      // parameters are usable (e.g. max_distance >= 0)
     spec fn p_in_bounds(&self) -> bool;           // every stored state satisfies the space bounds
+    spec fn p_space_ok(&self, sp: &SP) -> bool;   // planner-specific premise on the space (RRT*: distances are >= 0 and never NaN; others: true)
 
     fn setup(&mut self, problem_def: Arc<ProblemDefinition<S, SP, G>>, validity_checker: Arc<dyn StateValidityChecker<S>>)
         requires old(self).p_wf(), old(self).p_valid(), old(self).p_checked(), old(self).p_rng_ok(),
+            old(self).p_space_ok(&*problem_def.space),
         ensures
             final(self).p_wf(),                                         //@ setup.wf [C02,C08,C15]
             final(self).p_valid(),                                      //@ setup.valid [C01,C15]
